@@ -103,9 +103,45 @@ fn payload(n: usize) -> BS<Vec<u8>> {
     // mostly fresh bytes; sometimes one of a few fixed payloads, so that the same hash / key occurs
     // in different templates, coins and runs (anything keyed by the payload alone must still be right)
     prop_oneof![
-        5 => bytes(n),
-        1 => (0u8..4).prop_map(move |k| (0..n).map(|i| (i as u8).wrapping_mul(37).wrapping_add(k.wrapping_mul(91)).wrapping_add(1)).collect::<Vec<u8>>()),
+        20 => bytes(n),
+        4 => (0u8..4).prop_map(move |k| (0..n).map(|i| (i as u8).wrapping_mul(37).wrapping_add(k.wrapping_mul(91)).wrapping_add(1)).collect::<Vec<u8>>()),
+        // degenerate payloads: all zero (burn addresses: many leading zero bytes in the Base58 payload), all 0xff, zero prefix
+        1 => Just(vec![0u8; n]),
+        1 => Just(vec![0xffu8; n]),
+        1 => bytes(n).prop_map(|mut v| { let k = v.len() / 3; for b in v.iter_mut().take(k) { *b = 0; } v }),
     ]
+    .boxed()
+}
+
+/// scripts that software knows by name or treats specially: pay-to-anchor (51 02 4e73) and its neighbours, the bare
+/// OP_TRUE / OP_RETURN / empty scripts, CLTV / CSV prefixed P2PKH, the genesis P2PK output, burn outputs
+pub fn well_known_script() -> BS<Vec<u8>> {
+    let genesis_key = crate::hashes::unhex("04678afdb0fe5548271967f1a67130b7105cd6a828e03909a67962e0ea1f61deb649f6bc3f4cef38c4f35504e51ec112de5c384df7ba0b8d578a4c702b6bf11d5f");
+    let mut p2pk = vec![0x41];
+    p2pk.extend(&genesis_key);
+    p2pk.push(0xac);
+    let with20 = |pre: &[u8], fill: u8, post: &[u8]| { let mut v = pre.to_vec(); v.extend([fill; 20]); v.extend(post); v };
+    proptest::sample::select(vec![
+        vec![0x51, 0x02, 0x4e, 0x73],
+        vec![0x51, 0x02, 0x4e, 0x74],
+        vec![0x51, 0x02, 0x73, 0x4e],
+        vec![0x52, 0x02, 0x4e, 0x73],
+        vec![0x00, 0x02, 0x4e, 0x73],
+        vec![0x51, 0x03, 0x4e, 0x73, 0x00],
+        vec![],
+        vec![0x51],
+        vec![0x00],
+        vec![0x6a],
+        vec![0x6a, 0x00],
+        vec![0x6a, 0x6a],
+        p2pk,
+        with20(&[0x76, 0xa9, 0x14], 0, &[0x88, 0xac]),
+        with20(&[0xa9, 0x14], 0, &[0x87]),
+        with20(&[0x00, 0x14], 0, &[]),
+        with20(&[0x03, 0x40, 0x0d, 0x03, 0xb1, 0x75, 0x76, 0xa9, 0x14], 0x42, &[0x88, 0xac]),
+        with20(&[0x52, 0xb2, 0x75, 0x76, 0xa9, 0x14], 0x42, &[0x88, 0xac]),
+        with20(&[0xb1, 0x76, 0xa9, 0x14], 0x42, &[0x88, 0xb2, 0xac]),
+    ])
     .boxed()
 }
 
@@ -292,6 +328,7 @@ pub fn template(tier: Tier) -> BS<Vec<u8>> {
         (3, t_multisig()),
         (2, t_multisig_2of3()),
         (3, t_opreturn_single(tier)),
+        (1, well_known_script()),
     ])
 }
 
